@@ -61,6 +61,10 @@ def gen_cases(tier):
         cases.append({"kind": "corpus", "idx": i, "ddl": rec["ddl"], "ctor": {k: v for k, v in rec["init"].items() if k == "normalize_names"},
                       "mode": rec["run"].get("output_mode", "sql"), "loud_in_tests": bool(rec["init"].get("debug") or rec["init"].get("silent") is False)
                       and "test_silent_false_flag" not in rec.get("test", "")})
+    # every script of the generated pool shared with C10 / C12 is supported DDL: it never raises under silent=False and both settings agree
+    from ..gen_inputs import inputs
+    for n, (tag, ddl) in enumerate(inputs(tier)):
+        cases.append({"kind": "gen", "ddl": ddl, "mode": (modes if tier != "thorough" else ALL_MODES)[n % (len(modes) if tier != "thorough" else len(ALL_MODES))]})
     for bm in BAD_MODES:
         for silent in (True, False):
             cases.append({"kind": "badmode", "mode": bm, "silent": silent})
@@ -85,15 +89,15 @@ def evaluate(case):
         elif not all(m in r[2] or True for m in ("sql",)) or "sql" not in r[2] or "hql" not in r[2]:
             diffs.append(diff("message", "badmode-message", "lists valid modes", r[2]))
         return {"diffs": diffs, "nontrivial": True, "outcome": "badmode"}
-    if k == "sup":
-        ddl = script(case)
+    if k in ("sup", "gen"):
+        ddl = case["ddl"] if k == "gen" else script(case)
         s = run_ddl(ddl, {"silent": True}, {"output_mode": case["mode"]})
         l = run_ddl(ddl, {"silent": False}, {"output_mode": case["mode"]})
         if l[0] != "ok":
             diffs.append(diff("supported script, silent=False", "supported-raises", "no exception", l[1:3]))
         elif s != l:
             diffs.append(diff("silent vs loud", "silent-loud-differ", short(s), short(l)))
-        return {"diffs": diffs, "nontrivial": True, "outcome": "sup"}
+        return {"diffs": diffs, "nontrivial": True, "outcome": k}
     if k == "corpus":
         ctor = case["ctor"]
         s = run_ddl(case["ddl"], dict(ctor, silent=True), {"output_mode": case["mode"]})
@@ -144,4 +148,6 @@ def snippet(case):
         return _snip(script(case), {"silent": False}, {"output_mode": case["mode"]}) + "# and with silent=True\n"
     if case["kind"] == "corpus":
         return _snip(case["ddl"], dict(case["ctor"], silent=False), {"output_mode": case["mode"]})
+    if case["kind"] == "gen":
+        return _snip(case["ddl"], {"silent": False}, {"output_mode": case["mode"]}) + "# and with silent=True\n"
     return _snip("CREATE TABLE t (a int);", {}, {"output_mode": case["mode"]})
